@@ -52,6 +52,9 @@ class SecsIPeer:
         self.nak_next = False
         self.abandon_on_nak = True
         self.on_idle = None
+        self.on_message = None        # callable(message dict) when a message was reassembled
+        self.is_master = False        # E4 contention: the equipment is master, the host yields
+        self.contentions = 0
         line.sinks[port] = self._on_bytes
 
     # ---- transmit helpers
@@ -111,7 +114,12 @@ class SecsIPeer:
                     self.state = "tx_wait_ack"
                     self._tx(self.tx_queue[0])
                 elif b == rc.ENQ:
-                    self.errors.append("contention: ENQ while waiting for EOT")
+                    self.contentions += 1
+                    if not self.is_master:
+                        # E4 contention: the slave (host) postpones its own block and receives first
+                        self.state = "rx_block"
+                        self._tx([rc.EOT])
+                    # the master ignores the ENQ and keeps waiting for its EOT
                 else:
                     self.errors.append(f"expected EOT, got {b:#x}")
             elif self.state == "tx_wait_ack":
@@ -133,9 +141,11 @@ class SecsIPeer:
         lst.append(blk)
         if blk.e:
             del self.assembling[blk.system]
-            self.messages.append({"system": blk.system, "stream": blk.stream, "function": blk.function, "w": blk.w,
-                                  "device": blk.device, "r": blk.r, "body": b"".join(b.data for b in lst),
-                                  "blocks": lst})
+            msg = {"system": blk.system, "stream": blk.stream, "function": blk.function, "w": blk.w,
+                   "device": blk.device, "r": blk.r, "body": b"".join(b.data for b in lst), "blocks": lst}
+            self.messages.append(msg)
+            if self.on_message is not None:
+                self.on_message(msg)
 
 
 class E4Monitor:
@@ -204,3 +214,48 @@ class E4Monitor:
                 self.sender = None
             else:
                 self._err(f"after a block from {self.sender}: {src} sent {b:#x}, expected ACK/NAK from the receiver")
+
+
+class SecsIHp:
+    """Adapter: gives a SecsIPeer the small interface of hsmsenv.HsmsPeer that gemenv.GemPeer is written against."""
+
+    def __init__(self, sim, line, port, peer_is_host, device_id=0, label="secsi-peer"):
+        self.sim = sim
+        self.label = label
+        self.peer = SecsIPeer(sim, line, port, label)
+        self.peer.is_master = not peer_is_host
+        self.peer_is_host = peer_is_host
+        self.device_id = device_id
+        self.handlers: list = []
+        self.frames: list = []
+        self.sent: list = []
+        self.open = True
+        self.selected = True
+        self.eof = None
+        self.auto_select = False
+        self.auto_linktest = False
+        self.peer.on_message = self._on_message
+
+    def _on_message(self, msg):
+        fr = rc.data(msg["stream"], msg["function"], msg["w"], msg["system"], msg["body"], session=msg["device"])
+        fr.t, fr.seq = self.sim.k.now, self.sim.k.seq
+        self.sim.log("wire<", self.label, fr.short())
+        self.frames.append(fr)
+        for h in list(self.handlers):
+            h(fr)
+
+    def send(self, frame, delay=None):
+        self.sent.append(frame)
+        self.sim.log("wire>", self.label, frame.short())
+        blocks = rc.split_message(self.device_id, not self.peer_is_host, frame.w, frame.stream, frame.function,
+                                  frame.system, frame.body)
+        self.peer.send_blocks([b.encode() for b in blocks])
+        return True
+
+    def frames_of(self, stype=None, system=None):
+        return [f for f in self.frames if (stype in (None, 0)) and (system is None or f.system == system)]
+
+    def close(self):
+        self.open = False
+
+    reset = close
